@@ -67,8 +67,9 @@ def replay {σ : Type} (init : σ) (step : σ → String → String → σ × St
     t := { t with ops := t.ops + 1 }
     if out.nontrivial then
       t := { t with nontrivial := t.nontrivial + 1 }
-      if !seen.contains op then
-        seen := seen.insert op
+      let key := op ++ " => " ++ im
+      if !seen.contains key then
+        seen := seen.insert key
         t := { t with distinct := t.distinct + 1 }
     if out.model != im then
       t := { t with diffs := t.diffs + 1 }
